@@ -834,7 +834,7 @@ def check(tier: str) -> int:
         "PARTIAL (boundary property): the OS thread running the user's function is an oracle - its interactions with the loop "
         "(item dequeued, _report_result landing via call_soon_threadsafe, check_cancelled()) are environment ops chosen freely; "
         "theorems hold for every choice",
-        "model boundary/Threads.v hand-written from _asyncio.py:983-1062, 2050-2168, 2586-2655; cancel scopes abstracted to the "
+        "model boundary/Threads.v hand-written from _asyncio.py (AsyncIOBackend.run_sync_in_worker_thread, WorkerThread._report_result/run, AsyncIOBackend.check_cancelled, CapacityLimiter); cancel scopes abstracted to the "
         "caller's chain of (cancel_called, shield) flags; cancellation reaches a caller suspended in sleep(0) when it resumes "
         "(FIFO loops: the _deliver_cancellation retry precedes the task's step)",
         "not exhibited by the model, exercised here with REAL threads and monitors only: preemptive interleavings inside the "
@@ -855,7 +855,10 @@ def check(tier: str) -> int:
     if corpus_dir.exists():
         for f in sorted(corpus_dir.glob("*.json")):
             c = json.loads(f.read_text())
-            runs.append(Run(c["total"], bool(c["prune"]), bool(c.get("uvloop")), c["ncalls"], script=c["ops"]).execute())
+            plan = [tuple(c["ops"][i:i + 4]) for i in range(0, len(c["ops"]), 4)]
+            # ops the (unchanged) implementation does not enable at that point are skipped, cf. plan_chooser
+            runs.append(Run(c["total"], bool(c["prune"]), bool(c.get("uvloop")), c["ncalls"],
+                            chooser=plan_chooser(plan)).execute())
             n_corpus += 1
     # directed family (small scope, all combinations)
     plans = directed_plans()
@@ -867,16 +870,22 @@ def check(tier: str) -> int:
         runs.append(Run(total, False, i % 8 == 0, 2, chooser=plan_chooser(p)).execute())
     n_directed = len(plans)
     # random walks
-    n_random = 600 if tier == "quick" else 14000
+    n_random = 600 if tier == "quick" else 7000
     for i in range(n_random):
         if plenty():
             break
         runs.append(random_run(rng, uv=(i % 6 == 0)))
     # exhaustive small scope by replay
     if tier == "quick":
-        ex = exhaustive_runs(1, 2, 4, False, 700)
+        ex_spec = [(1, 2, 4, False, 700)]
     else:
-        ex = exhaustive_runs(1, 2, 6, False, 9000) + exhaustive_runs(2, 2, 5, True, 4000)
+        ex_spec = [(1, 2, 6, False, 6000), (2, 2, 5, True, 2500)]
+    ex = []
+    ex_truncated = False
+    for (tot_, nc_, depth_, uv_, budget_) in ex_spec:
+        part = exhaustive_runs(tot_, nc_, depth_, uv_, budget_)
+        ex_truncated |= len(part) >= budget_
+        ex += part
     runs += ex
 
     # races: monitors only
@@ -975,6 +984,8 @@ def check(tier: str) -> int:
         "directed_cases": n_directed,
         "random_cases": n_random,
         "exhaustive_small_scope_cases": len(ex),
+        "exhaustive_scopes": [{"total": t_, "calls": n_, "depth": d_, "uvloop": u_} for (t_, n_, d_, u_, _) in ex_spec],
+        "exhaustive_truncated_by_budget": ex_truncated,
         "racy_monitor_only_runs": len(racy),
         "corpus_cases": n_corpus,
         "uvloop_cases": sum(1 for r in runs + racy if r.uv),
